@@ -706,9 +706,10 @@ def r_accessor_eq(A, ctx, scope, rule="R-ACCESSOR-EQ", select=None):
     # full_grad_sparse stacks the coordinate gradients
     for dcls in prog.datafits:
         ff = dcls.find_method("full_grad_sparse")
-        fg = dcls.find_method("gradient_scalar_sparse")
+        fg = dcls.find_method("gradient_scalar_sparse") or dcls.find_method("gradient_j_sparse")
         if ff is None or fg is None or ff.cls.name.startswith("Base") or dcls.name == "Cox":
             continue
+        multi = dcls.is_subclass_of(prog.BaseMultitaskDatafit)
         if select is not None and not select("full_grad"):
             continue
         key = f"{dcls.fq}::full_grad_sparse"
@@ -717,24 +718,27 @@ def r_accessor_eq(A, ctx, scope, rule="R-ACCESSOR-EQ", select=None):
             L = RegionLifter(prog, rg, max_steps=40000)
             dobj = make_obj(prog, dcls)
             im = dcls.find_method("initialize_sparse")
+            yy = Y if multi else y
             if im is not None and not im.cls.name.startswith("Base"):
-                L.call_function(im, list(csc) + [y], self_obj=dobj)
+                L.call_function(im, list(csc) + [yy], self_obj=dobj)
 
             def bind(f, j=None):
                 out = []
                 for p in f.call_params():
                     pl = p.lower()
                     out.append(csc[0] if pl.endswith("_data") else csc[1] if pl.endswith("_indptr")
-                               else csc[2] if pl.endswith("_indices") else y if p == "y"
+                               else csc[2] if pl.endswith("_indices") else yy if p in ("y", "Y")
                                else Vec(sym(f"w{k}") for k in range(P)) if p == "w"
+                               else Mat(Vec(sym(f"W{k}{t}") for t in range(T)) for k in range(P)) if p == "W"
+                               else Mat(Vec(sym(f"XW{i}{t}") for t in range(T)) for i in range(N)) if p == "XW"
                                else Vec(sym(f"Xw{i}") for i in range(N)) if p in ("Xw", "yXTw") else j)
                 return out
             full = L.call_function(ff, bind(ff), self_obj=dobj)
-            each = Vec(L.call_function(fg, bind(fg, j), self_obj=dobj) for j in range(P))
+            each = (Mat if multi else Vec)(L.call_function(fg, bind(fg, j), self_obj=dobj) for j in range(P))
             n += 1
             d = _first_diff(rg, full, each)
             ctx.ob(rule, key, d is None,
-                   what=f"{dcls.name}.full_grad_sparse is not the stack of gradient_scalar_sparse: {d}",
+                   what=f"{dcls.name}.full_grad_sparse is not the stack of {fg.name} over the features: {d}",
                    loc=loc(ff, ff.node))
         except Raised as e:
             n += 1
